@@ -111,6 +111,8 @@ pub open spec fn authorized(c: Config, w: int, sender: Seq<char>) -> bool {
 @method contracts/cw3-flex-multisig/src/state.rs Config authorize
 @ensures C05.authorize_exact
     r is Ok ==> authorized(*self, querier.world(), sender@)
+@ensures C05.authorize_never_refuses_the_entitled C15
+    (match self.executor { None => true, Some(Executor::Only(a)) => a@ == sender@, Some(Executor::Member) => false }) ==> r is Ok
 @end
 
 // --------------------------------------------------------------------- vote
@@ -458,6 +460,10 @@ pub open spec fn close_msgs_ok(msgs: Seq<SubMsg<Empty>>, p: Proposal) -> bool {
     r is Ok ==> execute_msgs_ok(r->Ok_0.messages@, prop_of(old(deps.storage).view(), proposal_id)->Some_0)
 @ensures C05.execute_inv C03 C06 C15
     r is Ok ==> inv(final(deps.storage).view())
+@ensures C15.execute_goes_through_on_passed_proposals C05
+    prop_of(old(deps.storage).view(), proposal_id) is Some && spec_status(prop_of(old(deps.storage).view(), proposal_id)->Some_0, &env.block) == Status::Passed
+        && (match cfg_of(old(deps.storage).view())->Some_0.executor { None => true, Some(Executor::Only(a)) => a@ == info.sender@, Some(Executor::Member) => false })
+        ==> r is Ok
 @prefix
     broadcast use cw3_axioms, msg_conv;
     proof {
@@ -477,6 +483,12 @@ pub open spec fn close_msgs_ok(msgs: Seq<SubMsg<Empty>>, p: Proposal) -> bool {
     r is Ok ==> close_msgs_ok(r->Ok_0.messages@, prop_of(old(deps.storage).view(), proposal_id)->Some_0)
 @ensures C05.close_inv C03 C06 C15
     r is Ok ==> inv(final(deps.storage).view())
+@ensures C15.close_goes_through_on_failed_proposals C05
+    prop_of(old(deps.storage).view(), proposal_id) is Some && ({
+        let p = prop_of(old(deps.storage).view(), proposal_id)->Some_0;
+        p.status != Status::Executed && p.status != Status::Rejected && p.status != Status::Passed
+        && spec_status(p, &env.block) != Status::Passed && p.expires.expired(&env.block)
+    }) ==> r is Ok
 @prefix
     broadcast use cw3_axioms, msg_conv;
     proof {
